@@ -124,6 +124,12 @@ THS ==
                  <<Line.hook, seen, Line.sosor, Line.eosor, Line.soeor, Line.eoeor>>)
           \* C10: between SOSOR and the end of after_STOP_ACTIVITY every hook sees this run's number and start time
           + Soft("SetBetween", inside => (Line.rn = run /\ Line.sosor # 0), <<Line.hook, Line.rn, run, Line.sosor>>)
+          \* C10: the completion stamps are set between the negative and the non-negative after_ hooks - whatever the negative
+          \* ones (or the enter_ hooks before them) reported
+          + Soft("SetBetween", (Line.m = "after_STOP_ACTIVITY" /\ Line.w >= 0 /\ tx = "STOP_ACTIVITY") => (Line.soeor # 0 /\ Line.eoeor # 0),
+                 <<Line.hook, "end stamps at after_STOP_ACTIVITY+", Line.soeor, Line.eoeor>>)
+          + Soft("SetBetween", (Line.m = "after_START_ACTIVITY" /\ Line.w >= 0 /\ tx = "START_ACTIVITY") => Line.eosor # 0,
+                 <<Line.hook, "start completion at after_START_ACTIVITY+", Line.eosor>>)
           + Soft("Stable", (inside /\ runView.rn # 0) => (Line.rn = runView.rn /\ Line.sosor = runView.sosor), <<Line.hook, Line.rn, Line.sosor, runView>>)
           \* C10: before SOSOR / after the end of after_STOP_ACTIVITY no run number is visible
           \* (a call reads its variables a little after it was started: a hook started just before SOSOR may already see the
